@@ -16,7 +16,7 @@ def run(ck):
     if quick:
         incr.codec_check(ck, d, n_records=40, n_prefix_records=14, n_corrupt_per_record=10, n_random=40)
     else:
-        incr.codec_check(ck, d, n_records=400, n_prefix_records=60, n_corrupt_per_record=14, n_random=600)
+        incr.codec_check(ck, d, n_records=400, n_prefix_records=60, n_corrupt_per_record=14, n_random=600, n_xcheck=60)
     ck.rule(C02.RULE + ' | C05 bias: 60% of the scripts fail, are cancelled or cannot be spawned')
     n = 40 if quick else 600
     batch = 40 if quick else 200
@@ -32,4 +32,4 @@ def run(ck):
 
 
 def replay(ck, path):
-    run(ck)
+    incr.replay_file(ck, path, run)
